@@ -856,7 +856,7 @@ func TestVerifStandin_C08_TL(t *testing.T) {
 		c08tlChild()
 		return
 	}
-	fails := &c08tlFails{byCause: map[string][]string{}, count: map[string]int{}, known: []string{"rc_type_list_incomplete", "rc_seed_not_accepted"}}
+	fails := &c08tlFails{byCause: map[string][]string{}, count: map[string]int{}, known: []string{"rc_type_list_incomplete", "rc_seed_not_accepted", "rc_fatal_out_of_memory_tl.decodeVector"}}
 
 	// the hand-collected list covers generated.go
 	listed := map[string]bool{}
@@ -905,6 +905,7 @@ func TestVerifStandin_C08_TL(t *testing.T) {
 
 	executed := 0
 	distinct := map[uint64]struct{}{}
+	defer func() { fmt.Printf("STANDIN-STAT name=c08_tl cases=%d distinct=%d\n", executed, len(distinct)) }()
 	start := 0
 	var skips []string
 	skippedCases := 0
@@ -958,7 +959,8 @@ func TestVerifStandin_C08_TL(t *testing.T) {
 			break
 		}
 		if last < start || last >= nCases {
-			t.Fatalf("child died before its first case (start %d, last %d): %v\n%s", start, last, waitErr, c08tlTail(stderr.String(), 40))
+			fails.add("rc_sweep_aborted", fmt.Sprintf("child died before its first case (start %d, last %d): %v: %s", start, last, waitErr, strings.ReplaceAll(c08tlHead(stderr.String(), 12), "\n", " | ")))
+			break
 		}
 		// the child died (or gave up) while running case `last`
 		ci, sameField := caseAt(last)
@@ -989,7 +991,6 @@ func TestVerifStandin_C08_TL(t *testing.T) {
 		t.Logf("cases not executed because they mutate the same bytes of the same seed as a case that killed the child (counted with overlaps): %d", skippedCases)
 	}
 	fails.report(t)
-	fmt.Printf("STANDIN-STAT name=c08_tl cases=%d distinct=%d\n", executed, len(distinct))
 }
 
 func c08tlHead(s string, n int) string {
